@@ -6,6 +6,7 @@ fault placement.  Everything is drawn from one ``random.Random`` seeded from (se
 from __future__ import annotations
 
 import math
+import os
 import random
 
 import numpy as np
@@ -47,15 +48,15 @@ PROFILES = {
     "C05": {"w": _p(measure=14, op1=9, opx=8, struct=5, povm=1, fault=2), "clients": (1, 2), "fault_rate": 0.12, "faults": ["use_destroyed"]},
     "C06": {"w": _p(kraus=16, op1=8, opx=7, struct=5, measure=1), "clients": (1, 1), "fault_rate": 0.0},
     "C07": {"w": _p(), "clients": (1, 2), "fault_rate": 0.0, "nonunitary": 0.3},
-    "C08": {"w": _p(struct=14, config=3, kraus=5, op1=10, opx=6), "clients": (1, 1), "fault_rate": 0.0, "struct_bias": "level", "no_estimator": True},
+    "C08": {"wide_rate": 0.0, "w": _p(struct=14, config=3, kraus=5, op1=10, opx=6), "clients": (1, 1), "fault_rate": 0.0, "struct_bias": "level", "no_estimator": True},
     "C09": {"w": _p(povm=16, op1=9, opx=8, struct=5, measure=1, kraus=2), "clients": (1, 1), "fault_rate": 0.0},
     "C10": {"w": _p(resize=14, op1=12, opx=5, struct=5, kraus=2, measure=1), "clients": (1, 1), "fault_rate": 0.15, "faults": ["shrink_below_support"], "fock_bias": True},
     "C11": {"w": _p(opx=16, op1=10, struct=5, measure=2, kraus=1, povm=0.3, resize=1), "clients": (1, 1), "fault_rate": 0.0, "fock_bias": True, "optics": True, "min_envs": 2},
     "C13": {"w": _p(mk_ce=8, measure=8, struct=8, opx=8, op1=4, povm=2), "clients": (2, 3), "fault_rate": 0.0, "min_envs": 2},
-    "C14": {"w": _p(measure=10, povm=5, op1=10, opx=8, struct=4, config=0), "clients": (1, 2), "fault_rate": 0.0},
-    "C15": {"w": _p(op1=14, opx=10, mk_op=4, struct=4, measure=1, kraus=2), "clients": (1, 2), "fault_rate": 0.0, "reuse": True},
+    "C14": {"wide_rate": 0.0, "w": _p(measure=10, povm=5, op1=10, opx=8, struct=4, config=0), "clients": (1, 2), "fault_rate": 0.0},
+    "C15": {"wide_rate": 0.0, "w": _p(op1=14, opx=10, mk_op=4, struct=4, measure=1, kraus=2), "clients": (1, 2), "fault_rate": 0.0, "reuse": True},
     "C17": {"w": _p(fault=0), "clients": (1, 2), "fault_rate": 0.25},
-    "C18": {"w": _p(measure=12, mk_ce=4, struct=6, trace_out=4, opx=10, op1=5, kraus=3, povm=2, resize=2), "clients": (1, 2), "fault_rate": 0.0, "equal_values": True, "min_envs": 3},
+    "C18": {"wide_rate": 0.0, "w": _p(measure=12, mk_ce=4, struct=6, trace_out=4, opx=10, op1=5, kraus=3, povm=2, resize=2), "clients": (1, 2), "fault_rate": 0.0, "equal_values": True, "min_envs": 3},
     "C20": {"w": _p(mk_ce=3, opx=9, kraus=4, povm=3, measure=6, trace_out=6, resize=2, struct=10), "struct_bias": "level", "clients": (2, 2), "fault_rate": 0.0, "min_envs": 3},
     "ALL": {"w": _p(fault=0), "clients": (1, 3), "fault_rate": 0.08},
 }
@@ -71,6 +72,9 @@ class Gen:
         self.prof = dict(PROFILES[profile_name])
         if overrides:
             self.prof.update(overrides)
+        self.tier = tier
+        if os.environ.get("VERIF_SCEN"):  # debugging aid: force one scenario prefix
+            self.prof["scenario"] = os.environ["VERIF_SCEN"]
         self.rng = random.Random(seams.h64(seed, "gen", profile_name))
         rng = self.rng
         self.nclients = rng.randint(*self.prof["clients"])
@@ -160,6 +164,12 @@ class Gen:
                 scen = rng.choice(["bs2", "mz", "mz"])
             if self.prof.get("fock_bias") and not self.prof.get("optics") and c == 0 and rng.random() < 0.3:
                 scen = "cancel"
+            if c == 0 and self.prof.get("scenario"):
+                scen = self.prof["scenario"]
+            elif c == 0 and rng.random() < self.prof.get("wide_rate", 0.0):
+                scen = "wide"
+            if scen == "wide":
+                self.max_steps = min(self.max_steps, 6)
             if scen:
                 q.extend(self._scenario(scen, c))
             n_env = rng.randint(max(1, self.prof.get("min_envs", 1)), 3)
@@ -205,7 +215,58 @@ class Gen:
             a, b = self._new_env(c, fock=rng.choice([1, 1, 2])), self._new_env(c, fock=rng.choice([0, 0, 1]))
             ce = self._new_ce(c, [a["name"], b["name"]])
             q += [a, b, ce]
-            q.append(op({"t": "X.BS", "eta": round(rng.uniform(-2 * PI, 2 * PI), 6)}, "ce", [a["name"] + ".f", b["name"] + ".f"], ce=ce["name"]))
+            eta = round(rng.uniform(-2 * PI, 2 * PI), 6) if rng.random() < 0.75 else self.tiny()
+            q.append(op({"t": "X.BS", "eta": eta}, "ce", [a["name"] + ".f", b["name"] + ".f"], ce=ce["name"]))
+            if abs(eta) < 0.1:
+                q.append(op({"t": "F.PhaseShift", "phi": th}, rng.choice(["state", "ce"]), [b["name"] + ".f"], ce=ce["name"]))
+        elif scen == "wide":
+            # one product space of 1024 or 2048 dimensions (8 to 11 members): index plumbing beyond
+            # single digits and code paths chosen by size
+            big = [(9, 4), (11, 0)]  # 2048: about 45 s per run
+            small = [(8, 4), (10, 0), (8, 3), (9, 0)]
+            n, d = rng.choice({"big": big, "small": small}.get(self.prof.get("wide_size"), small + big))
+            es = [self._new_env(c, fock=0, pol=rng.choice(["H", "V"])) for _ in range(n)]
+            for e in es:
+                e.pop("dims", None)
+            members = [e["name"] for e in es]
+            s = self._new_custom(c, d=d) if d else None
+            if s:
+                members.insert(rng.randrange(len(members) + 1), s["name"])
+            ce = self._new_ce(c, members)
+            q += es + ([s] if s else []) + [ce]
+            P = [e["name"] + ".p" for e in es]
+            q.append(op({"t": "P.RX", "theta": th}, "state", [P[0]]))
+            for i in range(n - 1):
+                q.append(op({"t": "X.CX"}, "ce", [P[i], P[i + 1]], ce=ce["name"]))
+            if s:
+                q.append(op({"t": "X.Expr", "form": "cp_ctrl", "kinds": ["C", "P"], "d": d, "theta": th}, "ce", [s["name"], P[-1]], ce=ce["name"]))
+            k = rng.randrange(1, n - 1)
+            q.append(op({"t": "P.U3", "phi": th, "theta": round(th / 3, 6), "omega": round(-th / 2, 6)}, rng.choice(["state", "ce"]), [P[k]], ce=ce["name"]))
+            q.append(op({"t": "X.CZ"}, "ce", [P[-1], P[1]], ce=ce["name"]))
+            tgt = s["name"] if s and rng.random() < 0.6 else rng.choice(P)
+            td = d if tgt == (s or {}).get("name") else 2
+            if rng.random() < 0.7:
+                ch = {"family": "dilation", "n": 2, "seed": rng.randint(1, 40)}
+                q.append({"do": "kraus", "entry": rng.choice(["state", "ce"]), "ce": ce["name"], "ch": ch, "on": [rng.choice(P)], "client": c})
+            q.append({"do": "povm", "entry": rng.choice(["state", "ce"]), "ce": ce["name"], "m": {"family": "dilation", "n": 3, "seed": rng.randint(1, 40)}, "on": [tgt], "destr": False, "client": c})
+            q.append({"do": "trace_out", "entry": "ce", "ce": ce["name"], "on": [P[-2], P[0]], "client": c})
+            q.append({"do": "measure", "entry": "ce", "ce": ce["name"], "on": [P[k]], "sep": True, "destr": True, "client": c})
+            q.append(op({"t": "P.RY", "theta": th}, "ce", [P[0]], ce=ce["name"]))
+        elif scen == "weaknoise":
+            # weak noise on one photon of an entangled pure state: purity deficits around the
+            # library's "is it pure" tolerances
+            n = rng.choice([2, 3])
+            es = [self._new_env(c, pol="H") for _ in range(n)]
+            ce = self._new_ce(c, [e["name"] for e in es])
+            q += es + [ce]
+            q.append(op({"t": "P.RY", "theta": th}, "state", [es[0]["name"] + ".p"]))
+            for i in range(n - 1):
+                q.append(op({"t": "X.CX"}, "ce", [es[i]["name"] + ".p", es[i + 1]["name"] + ".p"], ce=ce["name"]))
+            for _ in range(rng.choice([1, 2, 3])):
+                t = rng.choice(es)["name"] + ".p"
+                ch = {"family": rng.choice(["phaseflip", "bitflip", "depol"]), "p": round(10 ** rng.uniform(-7.5, -3.5), 12)}
+                ent = rng.choice(["state", "ce"])
+                q.append({"do": "kraus", "entry": ent, "ce": ce["name"], "ch": ch, "on": [t], "client": c})
         elif scen == "mz":
             a, b = self._new_env(c, fock=1, pol="H", dims=0), self._new_env(c, fock=0, pol="H", dims=0)
             ce = self._new_ce(c, [a["name"], b["name"]])
@@ -372,8 +433,22 @@ class Gen:
             return 10**9
         return D
 
+    def _intperm(self, spec):
+        # now and then the user operator is a 0/1 permutation matrix, written with an integer dtype
+        if self.rng.random() < 0.2:
+            spec["u"] = "perm"
+            if self.rng.random() < 0.6:
+                spec["dtype"] = "int"
+        return spec
+
+    def tiny(self):
+        # weak couplings: amplitudes from 3e-7 to 3e-2, where "is it pure / is it zero" tolerances live
+        return round(self.rng.choice([-1, 1]) * 10 ** self.rng.uniform(-6.5, -1.5), 12)
+
     def angle(self):
         # boundary values are legal parameters too (identity rotations, exact swaps, sign flips)
+        if self.rng.random() < 0.06:
+            return self.tiny()
         if self.rng.random() < 0.15:
             return round(self.rng.choice([0.0, PI / 2, PI, -PI / 2, 2 * PI, PI / 4, -PI, 3 * PI, 4 * PI]), 9)
         return round(self.rng.uniform(-4 * PI, 4 * PI), 6)
@@ -393,14 +468,14 @@ class Gen:
                 return {"t": "P." + rng.choice(["RX", "RY", "RZ"]), "theta": self.angle()}
             if c < 0.88:
                 return {"t": "P.U3", "phi": self.angle(), "theta": self.angle(), "omega": self.angle()}
-            return {"t": "P.Custom", "u": "haar", "seed": rng.randint(1, 30)}
+            return self._intperm({"t": "P.Custom", "u": "haar", "seed": rng.randint(1, 30)})
         if k == "C":
             d = pre.sub[sub]["dims"]
             c = rng.random()
             if nu:
                 return {"t": "C.Custom", "d": d, "u": "contr", "seed": rng.randint(1, 30)}
             if c < 0.5:
-                return {"t": "C.Custom", "d": d, "u": rng.choice(["haar", "haar", "shift"]), "seed": rng.randint(1, 30)}
+                return self._intperm({"t": "C.Custom", "d": d, "u": rng.choice(["haar", "haar", "shift"]), "seed": rng.randint(1, 30)})
             return {"t": "C.Expr", "d": d, "form": rng.choice(["expm_herm", "np_leaf", "mmult"]), "theta": round(rng.uniform(-3, 3), 6), "seed": rng.randint(1, 30)}
         # Fock
         s = actions.support(pre, sub) or 0
@@ -418,7 +493,7 @@ class Gen:
             return {"t": "F.Expr", "form": rng.choice(["phase", "kerr"]), "theta": self.angle()}
         if c < 0.84 and b is not None and b.D <= 12 and s <= 3:
             d = s + rng.choice([1, 1, 2, 3]) if s >= 1 else rng.choice([2, 3])
-            return {"t": "F.Custom", "d": max(d, 2), "u": "haar", "seed": rng.randint(1, 30)}
+            return self._intperm({"t": "F.Custom", "d": max(d, 2), "u": "haar", "seed": rng.randint(1, 30)})
         if b is not None and b.D <= 16 and s <= 2 and not self.prof.get("no_estimator"):
             if rng.random() < 0.6:
                 a = rng.choice(ALPHAS)
@@ -514,6 +589,8 @@ class Gen:
         th = round(rng.uniform(-2 * PI, 2 * PI), 6)
         if rng.random() < 0.15:
             th = round(rng.choice([0.0, PI / 4, PI / 2, PI, -PI / 2, 2 * PI, -PI]), 9)
+        elif rng.random() < 0.1:
+            th = self.tiny()
         if o in ("CX", "CZ", "SWAP"):
             on = rng.sample(P, 2)
             spec = {"t": "X." + o}
@@ -558,17 +635,19 @@ class Gen:
         rng = self.rng
         if len(dims) == 1:
             d = dims[0]
-            fams = ["dilation", "dilation", "ampdamp", "unitary"]
+            fams = ["dilation", "dilation", "ampdamp", "unitary", "perm", "jump"]
             if d == 2:
                 fams += ["bitflip", "phaseflip", "depol", "depol"]
             f = rng.choice(fams)
             if f == "dilation":
                 return {"family": "dilation", "n": rng.choice([2, 2, 3, 4]), "seed": rng.randint(1, 40)}
-            if f == "unitary":
-                return {"family": "unitary", "seed": rng.randint(1, 40)}
+            if f in ("unitary", "perm"):
+                return {"family": f, "seed": rng.randint(1, 40)}
+            if f == "jump":
+                return {"family": "jump"}
             if f == "ampdamp":
                 return {"family": "ampdamp", "g": round(rng.uniform(0.05, 0.95), 4)}
-            return {"family": f, "p": round(10 ** rng.uniform(-7, -0.3), 9) if rng.random() < 0.3 else round(rng.uniform(0.05, 0.95), 4)}
+            return {"family": f, "p": round(10 ** rng.uniform(-7, -0.3), 12) if rng.random() < 0.3 else round(rng.uniform(0.05, 0.95), 4)}
         if rng.random() < 0.6:
             return {"family": "dilation", "n": rng.choice([2, 3]), "seed": rng.randint(1, 40)}
         return {"family": "prod", "parts": [self._chan([d]) for d in dims]}
@@ -601,16 +680,18 @@ class Gen:
         dims = [pre.sub[n]["dims"] for n in on]
         if any(d <= 0 for d in dims) or int(np.prod(dims)) > 24 or self._merged_dim(pre, on) > 160:
             return None
-        r = {"do": "kraus", "entry": entry, "ch": self._chan(dims), "on": on, "arr": self.rng.choice(["jnp", "jnp", "np"]), **extra}
+        r = {"do": "kraus", "entry": entry, "ch": self._chan(dims), "on": on, "arr": self.rng.choice(["jnp", "jnp", "np", "real", "int", "npint"]), **extra}
         if entry in ("state", "ce") and self.rng.random() < 0.2:
             r["idc"] = False  # identity_check=False: the (complete) set must be applied all the same
+        if entry == "state" and self.rng.random() < 0.25:
+            r["style"] = "pos"
         return r
 
     def _mset(self, dims):
         rng = self.rng
         if len(dims) == 1:
             d = dims[0]
-            fams = ["dilation", "dilation", "proj", "basis"]
+            fams = ["dilation", "dilation", "proj", "basis", "jump"]
             if d == 2:
                 fams += ["unsharp", "unsharp"]
             f = rng.choice(fams)
@@ -618,8 +699,8 @@ class Gen:
                 return {"family": "dilation", "n": rng.choice([2, 3]), "seed": rng.randint(1, 40)}
             if f == "proj":
                 return {"family": "proj", "seed": rng.randint(1, 40)}
-            if f == "basis":
-                return {"family": "basis"}
+            if f in ("basis", "jump"):
+                return {"family": f}
             return {"family": "unsharp", "eta": round(rng.uniform(0.1, 0.95), 4)}
         if rng.random() < 0.6:
             return {"family": "dilation", "n": rng.choice([2, 3]), "seed": rng.randint(1, 40)}
@@ -633,9 +714,10 @@ class Gen:
         dims = [pre.sub[n]["dims"] for n in on]
         if any(d <= 0 for d in dims) or int(np.prod(dims)) > 16 or self._merged_dim(pre, on) > 160:
             return None
-        r = {"do": "povm", "entry": entry, "m": self._mset(dims), "on": on, "destr": self.rng.random() < 0.5, **extra}
+        r = {"do": "povm", "entry": entry, "m": self._mset(dims), "on": on, "destr": self.rng.random() < 0.5, "arr": self.rng.choice(["jnp", "jnp", "np", "real", "int", "npint"]), **extra}
         if entry == "state":
             r["partial"] = self.rng.random() < 0.5
+        r["style"] = self.rng.choice(["kw", "min", "min", "pos"])
         return r
 
     def _measure(self, world, pre, client):
@@ -659,13 +741,13 @@ class Gen:
                 on = [e + ".f", e + ".p"]
                 rng.shuffle(on)
                 sep = False
-            return {"do": "measure", "entry": "env", "env": e, "on": on, "sep": sep, "destr": destr}
+            return {"do": "measure", "entry": "env", "env": e, "on": on, "sep": sep, "destr": destr, "style": rng.choice(["kw", "min"])}
         on = [sub]
         if entry == "ce" and rng.random() < 0.5:
             cand = [n for n in self._class_subs(world, pre, extra["ce"]) if n != sub]
             rng.shuffle(cand)
             on += cand[: rng.randint(1, 2)]
-        return {"do": "measure", "entry": entry, "on": on, "sep": sep, "destr": destr, **extra}
+        return {"do": "measure", "entry": entry, "on": on, "sep": sep, "destr": destr, "style": rng.choice(["kw", "min", "min", "pos"]), **extra}
 
     def _struct(self, world, pre, client):
         rng = self.rng
@@ -767,6 +849,8 @@ class Gen:
             x = rng.choice(pool)
             if x not in of:
                 of.append(x)
+        if rng.random() < 0.2:
+            of.append(rng.choice(of))  # the same member named twice (a closed path a, b, c, a)
         return self._new_ce(client, of)
 
     def _config(self, world, pre, client):
@@ -855,9 +939,13 @@ class Gen:
                 on.append(world.partner(sub))
             r = {"do": "fault", "kind": k, "on": on, "entry": entry, "seed": rng.randint(1, 20), **extra}
             if k == "kraus_not_tp":
-                r["how"] = rng.choice(["scale", "drop"])
+                r["how"] = rng.choice(["scale", "drop", "imag", "offdiag", "diag1"])
+                if r["how"] not in ("scale", "drop"):
+                    r["eps"] = rng.choice([0.3, 0.3, 1e-2, 1e-4])
+                    r["single"] = rng.random() < 0.5
             else:
                 r["delta"] = rng.choice([1, 1, -1])
+                r["shape"] = rng.choice(["square", "square", "tall", "wide", "mixed", "vector"])
             return r
         if k == "custom_op_wrong_shape":
             cand = [s for s in subs if world.kind(s) in ("P", "C")]
@@ -927,4 +1015,4 @@ class Gen:
         return None
 
 
-SCENARIOS = ["bell", "ghz", "bs2", "mz", "envcomb", "two_ps", "merged", "mixed_custom", "cancel"]
+SCENARIOS = ["bell", "ghz", "bs2", "mz", "envcomb", "two_ps", "merged", "mixed_custom", "cancel", "weaknoise"]
